@@ -468,7 +468,19 @@ class GLRParser(Parser):
             if shifted_head:
                 # If this token has already been shifted connect shifted head to
                 # this head.
-                parent = next(iter(shifted_head.parents.values())).clone_with_root(head)
+                parent = next(iter(shifted_head.parents.values()))
+                if parent.start_position == head.position:
+                    parent = parent.clone_with_root(head)
+                else:
+                    # The same terminal ending at the same position but
+                    # starting elsewhere (lexical ambiguity) is another token.
+                    parent = Parent(
+                        shifted_head,
+                        head,
+                        head.position,
+                        head.token_ahead.end_position,
+                        token=head.token_ahead,
+                    )
                 if self.dynamic_filter and not self._call_dynamic_filter(
                     parent, head.state, to_state, SHIFT
                 ):
